@@ -95,6 +95,8 @@ def modifier_opts(rng, paired):
         o += ["-g", f"y={A2}"]
     if paired and rng.random() < 0.6:
         o += ["-A", f"u={A2}"]
+    if rng.random() < 0.2:
+        o += ["-b", f"w={A3}"]
     if rng.random() < 0.3:
         o += ["-u", str(rng.choice([2, -2, 5]))]
     if paired and rng.random() < 0.3:
@@ -282,7 +284,8 @@ def check_cores(case, opts, fails):
         o1 = os.path.join(d, f"c{cores}.1{suffix}")
         outs = ["-o", o1] + (["-p", os.path.join(d, f"c{cores}.2{suffix}")] if paired else [])
         rep = os.path.join(d, f"rep{cores}.json")
-        args = ["-j", cores] + opts + extra + ["--json", rep] + outs + case.inputs()
+        # a small buffer makes several chunks of the 24 reads, so that the merge of per-chunk results is exercised
+        args = ["-j", cores, "--buffer-size", rng.choice([700, 1500, 4000000])] + opts + extra + ["--json", rep] + outs + case.inputs()
         code, _, err = run(args)
         if code == 2:
             return False
@@ -548,7 +551,8 @@ def check_order(case, fails):
     if outs[0][:2] != outs[1][:2]:
         fails.append(("C10", outs[1][2], "a different order of options gives a different result"))
     # composition through the API in the documented order (R1 only)
-    from cutadapt.modifiers import (UnconditionalCutter, QualityTrimmer, NextseqQualityTrimmer, AdapterCutter, PolyATrimmer, Shortener, NEndTrimmer)
+    from cutadapt.modifiers import (UnconditionalCutter, QualityTrimmer, NextseqQualityTrimmer, AdapterCutter, PolyATrimmer, Shortener, NEndTrimmer,
+                                    LengthTagModifier, PrefixSuffixAdder)
     from cutadapt.adapters import BackAdapter
     from cutadapt.info import ModificationInfo
     from dnaio import SequenceRecord
@@ -568,6 +572,10 @@ def check_order(case, fails):
         mods.append(Shortener(14))
     if "--trim-n" in flat:
         mods.append(NEndTrimmer())
+    if "--length-tag" in flat:
+        mods.append(LengthTagModifier("len="))
+    if "-y" in flat:
+        mods.append(PrefixSuffixAdder("", " suff"))
     for (name, s, q), got in zip(case.r1, outs[0][0]):
         rec = SequenceRecord(name, s, q)
         info = ModificationInfo(rec)
@@ -578,6 +586,9 @@ def check_order(case, fails):
             pass
         if rec.sequence != got[1] or (("--zero-cap" not in flat) and rec.qualities != gq):
             fails.append(("C10", outs[0][2], f"read {ident(name)}: step-by-step composition in the documented order gives {rec.sequence!r}, command gives {got[1]!r}"))
+            break
+        if rec.name != got[0]:
+            fails.append(("C10", outs[0][2], f"read {ident(name)}: step-by-step composition in the documented order gives the name {rec.name!r}, command gives {got[0]!r}"))
             break
     return True
 
